@@ -197,6 +197,7 @@ Definition to_ok (d : option Z) : bool := match d with Some t => Z.leb 0 t | Non
 Definition first_unw (x y : unw) : unw := match x with UNone => y | _ => x end.
 Definition user_pc (p : apc) : bool := match p with ATop | ABot => true | _ => false end.
 Definition is_abot (p : apc) : bool := match p with ABot => true | _ => false end.
+Definition is_asusp (p : apc) : bool := match p with ASusp => true | _ => false end.
 
 Section Model.
 Variable cf : cfg.
@@ -233,16 +234,14 @@ Definition handle_ev (s : st) (ev : qent) : st :=
   | ENormal e =>
       let a := earm s e in
       let s := set_epop s (upd (epop s) e (S (epop s e))) in
-      match pc s a with
-      | ASusp =>
-          let s := set_bots s (upd (bots s) a (S (bots s a))) in
-          let s := set_byield s (upd (byield s) a false) in
-          let s := set_inl s (upd (inl s) a true) in
-          let s := set_ocur s a in
-          let s := set_oev s e in
-          set_opc (wpc s a ABot) PRun
-      | _ => set_opc s OBug      (* the event carries the suspended coroutine: cannot happen *)
-      end
+      if is_asusp (pc s a)
+      then let s := set_bots s (upd (bots s) a (S (bots s a))) in
+           let s := set_byield s (upd (byield s) a false) in
+           let s := set_inl s (upd (inl s) a true) in
+           let s := set_ocur s a in
+           let s := set_oev s e in
+           set_opc (wpc s a ABot) PRun
+      else set_opc s OBug      (* the event carries the suspended coroutine: cannot happen *)
   end.
 
 Definition start_drain (s : st) : st := set_opc (set_odl (set_oto s None) None) P1.
